@@ -38,6 +38,9 @@ RULE = ("per transport (mrp, companion, http, rtsp): every interleaving of 2 req
         "read, as many consecutive messages as possible in one read, or 1..3 at random (HTTP/RTSP: the read "
         "concatenated byte-wise and additionally cut into segments of 1 / 7 / 40 bytes; MRP/Companion: consecutive "
         "hand-overs without a loop run; tunnel: one data-stream frame); 2-request HTTP/RTSP scripts run both ways; "
+        "MRP/tunnel: a request matched by message TYPE (generate_identifier=False, at most one per script) next to "
+        "identifier-matched ones, in every 2-request script without / with an identifier-carrying message of that "
+        "type (unknown identifier, each request's own identifier: late answers) and in 20% of the random sends; "
         "MRP listener sets vary per script (the unfiltered witness on every type plus up to 5 subscriptions: several "
         "listeners per type, the same function / bound method / coroutine subscribed repeatedly for one type with "
         "disjoint filters, the same callable on several types); plus 400 (thorough: 4000) bare MessageDispatcher cases "
@@ -48,8 +51,9 @@ RULE = ("per transport (mrp, companion, http, rtsp): every interleaving of 2 req
 ASSUMPTIONS = [
     "event granularity: the event loop runs until idle between two environment events (a response and a timer "
     "expiry never race inside one loop iteration)",
-    "MRP `type_N` pseudo identifiers and Companion auth frames (no identifier on the wire) are used one at a time "
-    "by protocol design; they are not generated",
+    "MRP `type_N` pseudo identifiers are used one at a time by protocol design: at most one type-matched request "
+    "per script, so its pseudo identifier is a fresh key like any other (spelt `no identifier + message type` on "
+    "the wire; other identifier-less messages use other types); Companion auth frames are not generated",
     "uuid4 identifiers are pairwise distinct (abstracted as a fresh counter per send in the model; two waiting "
     "requests sharing a wire identifier are reported by the oracle)",
     "MRP fixes no response type: a ProtocolMessage of any type carrying the identifier of a waiting request is its "
